@@ -652,11 +652,63 @@ def r_axis_total(c):
         raise AnalysisError(f"only {n} axis-taking public functions found (floor 12)")
 
 
+MEMO_DECOS = ("lru_cache", "cache", "memoize", "memoize_method", "memoize_on_first_arg",
+              "memoize_in")
+NUMERIC_ANN = ("int", "float", "complex", "bool", "Scalar", "Any", "DTypeLike", "Number",
+               "object", "Integer", "ScalarExpression", "ArrayOrScalar")
+MEMO_REVIEWED = {
+    "loopy.LoopyCall._to_pytato":
+        "only ever applied to loopy shape tuples (integers and affine expressions of size "
+        "parameters): no equal-valued scalar of another type can occur as an argument",
+}
+
+
+def r_memo(c):
+    """memoisation keys: Python compares 1 == 1.0 == True (and hashes them alike),
+    so a function memoised on a value that may be a Python/NumPy scalar returns
+    the result computed for an equal scalar of another type -- result dtypes then
+    depend on what was computed earlier in the process"""
+    m = c.model
+    import re
+    n = 0
+    for mi, fd in m.all_functions():
+        decos = [(d, ast.unparse(d)) for d in fd.decorator_list]
+        memo = [(d, t) for d, t in decos
+                if t.split("(")[0].split(".")[-1] in MEMO_DECOS]
+        if not memo:
+            continue
+        n += 1
+        qn = m.qualname(fd).replace("pytato.", "", 1)
+        d, t = memo[0]
+        typed = isinstance(d, ast.Call) and any(
+            k.arg == "typed" and ast.unparse(k.value) == "True" for k in d.keywords)
+        params = [a for a in fd.args.args + fd.args.kwonlyargs if a.arg not in ("self", "cls")]
+        star = [a for a in (fd.args.vararg, fd.args.kwarg) if a is not None]
+        if t.split("(")[0].split(".")[-1] == "memoize_on_first_arg":
+            params = params[1:]
+        risky = [a.arg for a in params + star if a.annotation is None or any(
+            re.search(rf"\b{w}\b", ast.unparse(a.annotation)) for w in NUMERIC_ANN)]
+        where = m.loc(mi, fd)
+        if not risky or typed:
+            c.ok("R03-MEMO", qn, "memo-key-distinguishes-scalar-types", where,
+                 "no scalar-typed argument" if not risky else "typed=True")
+        elif qn in MEMO_REVIEWED:
+            c.exempt("R03-MEMO", qn, "memo-key-distinguishes-scalar-types", where,
+                     MEMO_REVIEWED[qn])
+        else:
+            c.violation("R03-MEMO", qn, "memo-key-distinguishes-scalar-types", where,
+                        f"`@{t}` memoises on {risky}, which can be Python/NumPy scalars: "
+                        "1, 1.0, True and 1+0j are one cache key, so the result (e.g. a "
+                        "promoted dtype) computed for one of them is returned for the others")
+    if n < 8:
+        raise AnalysisError(f"only {n} memoised functions found (floor 8)")
+
+
 SPEC = Spec(
     prop="C03",
-    rules=[r_eager, r_axis, r_axis_total, r_splice, r_operators, r_slice, r_fold],
+    rules=[r_eager, r_axis, r_axis_total, r_splice, r_operators, r_slice, r_fold, r_memo],
     floors={"R03-EAGER": 70, "R03-AXIS": 15, "R03-SPLICE": 3, "R03-OPERATORS": 40,
-            "R03-SLICE": 5, "R03-FOLD": 2},
+            "R03-SLICE": 5, "R03-FOLD": 2, "R03-MEMO": 8},
     explanation=(
         "Decides structural clauses; the agreement of inferred shapes/dtypes with NumPy's "
         "value-level behaviour is NOT decided. R03-EAGER: for every concrete array "
@@ -684,7 +736,12 @@ SPEC = Spec(
         "v >= L -> L (L-1 for a negative step), below -> 0 (-1); defaults by sign "
         "of the step; zero step rejected. R03-FOLD: an accumulating loop in shape "
         "inference does not read the stale initial value of its accumulator; "
-        "repeated list.insert runs over ascending positions."),
+        "repeated list.insert runs over ascending positions. R03-AXIS also "
+        "enumerates every public function with an axis parameter: a raising test "
+        "depends on it there or in a repository function the value is handed to. "
+        "R03-MEMO: no function of the package is memoised (lru_cache, "
+        "memoize_method, ...) on an argument that may be a Python/NumPy scalar "
+        "without typed=True (1 == 1.0 == True are one cache key)."),
     not_decided=(
         "dtype promotion, broadcast shapes, slice lengths and which exception type "
         "NumPy would raise: a differential statement against an external library's "
